@@ -23,6 +23,12 @@ import onnx.numpy_helper
 import onnx.shape_inference
 
 ORIG_INFER_SHAPES = onnx.shape_inference.infer_shapes  # saved before anything can be patched
+try:  # value propagation through onnxruntime logs every failed run on stderr
+    import onnxruntime as _ort
+
+    _ort.set_default_logger_severity(4)
+except Exception:  # noqa: BLE001
+    pass
 
 MODULES = [
     ("spox.opset.ai.onnx.v17", "", 17),
@@ -483,10 +489,55 @@ def _gen_body_call(rng, op: Op, force: Optional[str] = None) -> dict:
     return call
 
 
+VP_MODES = ["default", "reference", "onnxruntime"]
+VP_WEIGHTS = [("default", 45), ("reference", 40), ("onnxruntime", 15)]  # onnxruntime cases run in a forked child
+
+
+def constify(rng, call) -> bool:
+    """Turn every present tensor operand into a constant with a known value (concrete small shape):
+    the calling form 'all inputs are known constants', under which value propagation runs.
+    Sets call['vp'] to a value-propagation mode. Returns False if some operand cannot be a constant."""
+    used = [v for a in call["args"] for v in (a if isinstance(a, list) else [a]) if v is not None]
+    ok = True
+    sym = {}
+    for v in dict.fromkeys(used):
+        var = call["vars"][v]
+        t = var["ty"]
+        if t is None or "t" not in t or t["t"] not in NP_OF or t["t"] in (14, 15):
+            ok = False
+            continue
+        if var["const"] is not None:
+            continue
+        shape = t["s"] if t["s"] is not None else [rng.choice([1, 2, 3]) for _ in range(rng.randint(0, 2))]
+        conc = []
+        for d in shape:
+            if isinstance(d, int):
+                conc.append(d)
+            elif isinstance(d, str):
+                conc.append(sym.setdefault(d, rng.choice([1, 2, 3])))
+            else:
+                conc.append(rng.choice([1, 2, 3]))
+        if int(np.prod(conc or [1])) > 256:
+            ok = False
+            continue
+        data = _const_data(rng, t["t"], conc)
+        if t["t"] == 9 or call["op"] in ("NonZero", "Compress", "Unique"):
+            pass
+        var["ty"] = {"t": t["t"], "s": conc}
+        var["const"] = {"dtype": t["t"], "shape": conc, "data": data}
+    call["vp"] = _pick(rng, VP_WEIGHTS)
+    call["family"] = "constfed" if ok else call["family"]
+    return ok
+
+
 def gen_call(rng, op: Op, force: Optional[str] = None) -> dict:
-    """One abstract constructor call for `op`. `force` selects a calling-form family."""
+    """One abstract constructor call for `op`. `force` selects a calling-form family
+    ("constfed": every operand a known constant, value propagation on)."""
     if op.name in BODY_OPS:
-        return _gen_body_call(rng, op, force)
+        return _gen_body_call(rng, op, "plain" if force == "constfed" else force)
+    constfed = force == "constfed"
+    if constfed:
+        force = "plain"
     sch = op.schema()
     O = onnx.defs.OpSchema.FormalParameterOption
     tc = {c.type_param_str: list(c.allowed_type_strs) for c in sch.type_constraints}
@@ -662,6 +713,8 @@ def gen_call(rng, op: Op, force: Optional[str] = None) -> dict:
             "args": args, "attrs": attrs, "out_count": None, "family": family}
     if fix and family in ("plain", "reuse") and rng.random() < 0.75:
         fix(rng, call, base)
+    if constfed:
+        constify(rng, call)
     # variadic outputs
     for o in sch.outputs:
         if o.option == O.Variadic:
@@ -1132,6 +1185,65 @@ def _model_json(m: onnx.ModelProto) -> dict:
     }
 
 
+def isolated(fn):
+    """Run fn() in a forked child and return its (pickled) result; None if the child died (a native
+    abort inside onnxruntime must not take the check down). The parent never runs onnxruntime itself."""
+    import os
+    import pickle
+
+    r, w = os.pipe()
+    pid = os.fork()
+    if pid == 0:
+        code = 0
+        try:
+            os.close(r)
+            try:
+                data = pickle.dumps(("ok", fn()))
+            except BaseException as e:  # noqa: BLE001
+                data = pickle.dumps(("exc", f"{type(e).__name__}: {e}"[:300]))
+            with os.fdopen(w, "wb") as f:
+                f.write(data)
+        except BaseException:  # noqa: BLE001
+            code = 3
+        finally:
+            os._exit(code)
+    os.close(w)
+    chunks = []
+    with os.fdopen(r, "rb") as f:
+        while True:
+            b = f.read(1 << 20)
+            if not b:
+                break
+            chunks.append(b)
+    _, status = os.waitpid(pid, 0)
+    if status != 0 or not chunks:
+        return None
+    try:
+        return pickle.loads(b"".join(chunks))
+    except Exception:  # noqa: BLE001
+        return None
+
+
+@contextlib.contextmanager
+def _quiet_fd2():
+    """onnxruntime (severity set by spox itself) writes every failed propagation run to fd 2"""
+    import os
+
+    try:
+        saved = os.dup(2)
+        null = os.open(os.devnull, os.O_WRONLY)
+    except OSError:
+        yield
+        return
+    try:
+        os.dup2(null, 2)
+        yield
+    finally:
+        os.dup2(saved, 2)
+        os.close(null)
+        os.close(saved)
+
+
 def run_spox(op: Op, call, value_prop: bool = False, vs=None, keep_outputs: bool = False) -> dict:
     """Call the real constructor through the public API; observe the exception or the output types.
     Best-effort observations for the correspondence (never fatal; failures go to `obs_errors`): the
@@ -1215,13 +1327,17 @@ def run_spox(op: Op, call, value_prop: bool = False, vs=None, keep_outputs: bool
             node_mod = None
 
         # -- value propagation off during the call under test (C07/C15's subject), if the switch exists
+        # `vp` of the call: absent/"none" = value propagation off; "default" = as the user's process
+        # has it (the library default); "reference" / "onnxruntime" = that backend explicitly
         ctx = contextlib.nullcontext()
-        if not value_prop:
+        vp = "default" if value_prop else (call.get("vp") or "none")
+        if vp != "default":
             try:
                 import spox._future as fut
                 from spox._value_prop import ValuePropBackend
 
-                ctx = fut.value_prop_backend(ValuePropBackend.NONE)
+                ctx = fut.value_prop_backend({"none": ValuePropBackend.NONE, "reference": ValuePropBackend.REFERENCE,
+                                              "onnxruntime": ValuePropBackend.ONNXRUNTIME}[vp])
             except Exception as e:  # noqa: BLE001
                 res["obs_errors"].append(f"value_prop_backend switch: {type(e).__name__}: {e}"[:200])
 
@@ -1229,7 +1345,7 @@ def run_spox(op: Op, call, value_prop: bool = False, vs=None, keep_outputs: bool
         if node_mod is not None:
             node_mod.Node.inference = inference
         try:
-            with ctx:
+            with ctx, (_quiet_fd2() if vp == "onnxruntime" else contextlib.nullcontext()):
                 out = fn(**kwargs)
         except Exception as e:  # noqa: BLE001
             res["raised"] = type(e).__name__
@@ -1244,6 +1360,10 @@ def run_spox(op: Op, call, value_prop: bool = False, vs=None, keep_outputs: bool
             res["types"] = [from_spox_type(getattr(v, "type", None)) for v in outs]
             if keep_outputs:
                 res["outputs"] = outs
+            try:  # (internal) which output Vars got a propagated value
+                res["has_value"] = [getattr(v, "_value") is not None for v in outs]
+            except Exception as e:  # noqa: BLE001
+                res["obs_errors"].append(f"output values: {type(e).__name__}: {e}"[:200])
         try:
             cls = node_class(op)
             if call.get("sub"):
@@ -1298,6 +1418,14 @@ def model_request(op: Op, call, sp: dict) -> Optional[dict]:
                 req["infer"] = inf
         else:
             req["infer"] = "reject"
+    if sp.get("has_value") is not None and cls is not None:
+        keys = []
+        for f in dataclasses.fields(cls.Outputs):
+            if cls.Outputs._get_field_type(f).value == 2:
+                keys += [f"{f.name}_{i}" for i in range(call.get("out_count") or 0)]
+            else:
+                keys.append(f.name)
+        req["values"] = [[k, "value"] for k, hv in zip(keys, sp["has_value"]) if hv]
     return req
 
 
@@ -1546,6 +1674,20 @@ def _flow_templates(rng, module, vars_, c):
         lambda: _mk(module, "Unsqueeze", [c, const(7, [1], [0])]),
         lambda: _mk(module, "ReduceSum", [c, None]),
         lambda: _mk(module, "Squeeze", [arg(e, [1, 1, 1, 1, 3]), const(7, [1], [0])]),
+        # every operand a known constant: value propagation runs when it is switched on
+        lambda: _mk(module, "NonZero", [c]),
+        lambda: _mk(module, "Unique", [c], {"sorted": 1}),
+        lambda: _mk(module, "Compress", [c, const(9, [2], [True, rng.random() < 0.5])]),
+        lambda: _mk(module, "Compress", [const(e, [2, 3], _const_data(rng, e, [2, 3])), const(9, [2], [True, False])], {"axis": 0}),
+        lambda: _mk(module, "Where", [const(9, [2], [True, False]), c, c]),
+        lambda: _mk(module, "Tile", [const(e, [1, 2], _const_data(rng, e, [1, 2])), c]),
+        lambda: _mk(module, "Expand", [const(e, [1, 1], _const_data(rng, e, [1, 1])), c]),
+        lambda: _mk(module, "Reshape", [const(e, [a * b], _const_data(rng, e, [a * b])), c]),
+        lambda: _mk(module, "ConstantOfShape", [c]),
+        lambda: _mk(module, "Range", [const(7, [], [0]), const(7, [], [a + b]), const(7, [], [1])]),
+        lambda: _mk(module, "Slice", [c, const(7, [1], [0]), const(7, [1], [1]), None, None]),
+        lambda: _mk(module, "TopK", [const(e if e != 11 else 1, [4], _const_data(rng, e if e != 11 else 1, [4])), const(7, [1], [min(a, 3)])]),
+        lambda: _mk(module, "NonZero", [const(e, [2, 3], _const_data(rng, e, [2, 3]))]),
     ]
     return rng.choice(T)()
 
@@ -1631,6 +1773,12 @@ def gen_flow(rng, module: str) -> Optional[dict]:
                 continue
             if r0["reject"] or not r0["types"] or not r0["types"][0] or "t" not in r0["types"][0]:
                 continue
+            try:  # the two representatives of the node (defaults omitted / explicit) must agree on the type
+                r1 = oracle_run(op0, c0, True)
+            except Exception:  # noqa: BLE001
+                continue
+            if r1["reject"] or r1["types"] != r0["types"]:
+                continue
             vars_ += c0["vars"]
             calls.append({k: v for k, v in c0.items() if k != "vars"})
             calls[0]["family"] = "flow"
@@ -1659,6 +1807,12 @@ def gen_flow(rng, module: str) -> Optional[dict]:
         calls.append(c)
     if len(calls) < 2:
         return None
+    if kind != "result" and rng.random() < 0.45:
+        # value propagation as users have it (results of earlier calls are not operands here, so the
+        # oracle needs no values of its own)
+        vp = _pick(rng, VP_WEIGHTS)
+        for c in calls:
+            c["vp"] = vp
     return {"vars": vars_, "calls": calls, "shared": shared, "kind": kind}
 
 
